@@ -5,7 +5,7 @@
 EXTENDS InferPlane
 CONSTANT Tier        \* "quick" | "thorough"
 Sizes == IF Tier = "quick" THEN {<<48, 64>>, <<57, 77>>} ELSE {<<48, 64>>, <<64, 48>>, <<57, 77>>, <<33, 95>>}
-MaxSizes == {<<0, 0>>, <<64, 96>>, <<96, 64>>, <<96, 96>>}
+MaxSizes == {<<0, 0>>, <<64, 96>>, <<96, 64>>, <<96, 96>>, <<40, 56>>, <<0, 96>>, <<80, 0>>}   \* larger, smaller and one-sided maxima
 Scales == IF Tier = "quick" THEN {<<1, 1>>, <<1, 2>>} ELSE {<<1, 1>>, <<1, 2>>, <<3, 4>>, <<3, 2>>}
 MaxStrides == {8, 16}
 Strides == {1, 2, 4}
@@ -15,7 +15,7 @@ Configs == {c \in [H : {s[1] : s \in Sizes}, W : {s[2] : s \in Sizes}, maxH : {m
                    ky : {j * KStep * U + 307 : j \in 0..12}, kx : {j * KStep * U + 717 : j \in 0..12}] :
               /\ <<c.H, c.W>> \in Sizes /\ <<c.maxH, c.maxW>> \in MaxSizes /\ <<c.sn, c.sd>> \in Scales
               /\ c.ky < (c.H - 1) * U /\ c.kx < (c.W - 1) * U /\ c.s <= c.ms
-              /\ (c.maxH = 0 \/ (c.maxH >= c.H /\ c.maxW >= c.W))}
+              /\ TRUE}
 Init == IPInit(Configs)
 Next == IPNext
 =============================================================================
